@@ -28,7 +28,7 @@ ERR_CODES = {
 
 def env_for_children():
     e = dict(os.environ)
-    e["PYTHONHASHSEED"] = "0"
+    e["PYTHONHASHSEED"] = os.environ.get("PYTHONHASHSEED", "0")
     e["PYTHONPATH"] = HARNESS
     e["PYTHONDONTWRITEBYTECODE"] = "1"
     e["GTIRB_VERIF"] = "1"
